@@ -99,6 +99,7 @@ int main(int argc, char **argv)
 	sqfs_istream_t *sortfile = NULL;
 	void *sehnd = NULL;
 	void *xattrmap = NULL;
+	char *abs_filename = NULL;
 	sqfs_writer_t sqfs;
 	options_t opt;
 
@@ -106,6 +107,25 @@ int main(int argc, char **argv)
 
 	if (sqfs_writer_init(&sqfs, &opt.cfg))
 		return EXIT_FAILURE;
+
+#if !defined(_WIN32) && !defined(__WINDOWS__)
+	/*
+	  pack_files() changes into the pack directory. A relative output
+	  file name no longer refers to the output file after that, so the
+	  cleanup would fail to remove a partial image (or remove a file of
+	  that name in the pack directory). Resolve the name while we are
+	  still in the directory we were started in.
+	 */
+	if (opt.packdir != NULL) {
+		abs_filename = realpath(opt.cfg.filename, NULL);
+		if (abs_filename == NULL) {
+			perror(opt.cfg.filename);
+			goto out;
+		}
+
+		sqfs.filename = abs_filename;
+	}
+#endif
 
 	if (opt.selinux != NULL) {
 		sehnd = selinux_open_context_file(opt.selinux);
@@ -175,5 +195,6 @@ out:
 	if (sortfile != NULL)
 		sqfs_drop(sortfile);
 	free(opt.packdir);
+	free(abs_filename);
 	return status;
 }
